@@ -97,10 +97,17 @@ def out_grid(rng, m, kind=None):
 
 def window(rng, x, mode=None):
     """(xmin, xmax, descriptor); None = not given"""
-    mode = mode or rng.choice(["none", "none", "grid", "between", "outside", "lo_only", "hi_only", "hi_grid"])
+    mode = mode or rng.choice(["none", "none", "grid", "between", "outside", "lo_only", "hi_only", "hi_grid", "near"])
     lo, hi = x[0], x[-1]
     if mode == "none" or len(x) < 2:
         return None, None, "none"
+    if mode == "near":     # an edge a hair inside a grid point: that point is outside the closed interval
+        i = rng.randrange(0, len(x) - 1)
+        j = rng.randrange(i + 1, len(x))
+        eps = rng.choice([1e-7, 3e-9, 1e-12])
+        lo_ = x[i] + abs(x[i]) * eps + (1e-12 if x[i] == 0 else 0.0)
+        hi_ = x[j] - abs(x[j]) * eps
+        return (lo_ if rng.random() < 0.6 else x[i]), (hi_ if rng.random() < 0.8 else x[j]), mode
     if mode == "grid":
         i = rng.randrange(0, len(x) - 1)
         j = rng.randrange(i, len(x))
